@@ -5,15 +5,6 @@ Decimal numerals: `str(n)` as a specification and the recognisers of the generat
 import EdxmlModel.DataType.Gate
 namespace Edxml.Gate
 
-def digitChar : Nat → Char
-  | 0 => '0' | 1 => '1' | 2 => '2' | 3 => '3' | 4 => '4' | 5 => '5' | 6 => '6' | 7 => '7' | 8 => '8' | _ => '9'
-
-/-- canonical decimal rendering of a natural number (`str(n)`) -/
-def renderNat (n : Nat) : List Char :=
-  if n < 10 then [digitChar n] else renderNat (n / 10) ++ [digitChar (n % 10)]
-termination_by n
-decreasing_by omega
-
 theorem charLe_iff (a b : Char) : a ≤ b ↔ a.toNat ≤ b.toNat := by
   rw [Char.le_def]; exact UInt32.le_iff_toNat_le
 
@@ -137,9 +128,6 @@ theorem canonNat_render (n : Nat) : canonNat (renderNat n) = true := by
 /-- `([1-9]\d*)|0` accepts exactly the canonical renderings of the natural numbers. -/
 theorem canonNat_iff_render (cs : List Char) : canonNat cs = true ↔ ∃ n, cs = renderNat n :=
   ⟨fun h => ⟨natVal cs, (render_natVal h).symm⟩, fun ⟨n, h⟩ => h ▸ canonNat_render n⟩
-
-def renderInt (z : Int) : List Char :=
-  if z < 0 then '-' :: renderNat z.natAbs else renderNat z.toNat
 
 theorem posDigits_render {n : Nat} (h : 1 ≤ n) : PosDigits (renderNat n) := by
   rcases (canonNat_iff _).mp (canonNat_render n) with h0 | hp
